@@ -428,11 +428,16 @@ impl ThreadPool {
         F: FnOnce() + Send + 'static,
     {
         let job = Box::new(f);
+        {
+            // a job is busy from the moment it is accepted, not from the moment a
+            // worker gets round to it
+            let mut num_busy = self.num_busy.write().unwrap();
+            *num_busy += 1;
+        }
         self.sender.send(Message::NewJob(job)).unwrap();
         #[cfg(varlink_rust_verif)]
         verif_hooks::probe("enqueued", self.num_busy());
-        if ((self.num_busy() + 1) >= self.workers.len()) && (self.workers.len() < self.max_workers)
-        {
+        if (self.num_busy() >= self.workers.len()) && (self.workers.len() < self.max_workers) {
             self.workers.push(Worker::new(
                 Arc::clone(&self.receiver),
                 Arc::clone(&self.num_busy),
@@ -477,12 +482,6 @@ impl Worker {
                 Message::NewJob(job) => {
                     #[cfg(varlink_rust_verif)]
                     verif_hooks::probe("dequeued", 0);
-                    {
-                        let mut num_busy = num_busy.write().unwrap();
-                        *num_busy += 1;
-                    }
-                    #[cfg(varlink_rust_verif)]
-                    verif_hooks::probe("busy-inc", 0);
                     job.call_box();
                     #[cfg(varlink_rust_verif)]
                     verif_hooks::probe("job-done", 0);
